@@ -28,7 +28,7 @@ KINDS = ['scalar', 'string', 'ipaddr', 'epath', 'status', 'typed_data', 'logix_r
          'unconnected_send', 'cpf', 'command', 'frame']
 REQUIRED = ['kind:' + k for k in KINDS] + ['monitor:bytes-equal', 'monitor:fields-recovered', 'monitor:regenerated', 'monitor:reproduce-after-edit', 'sweep:reply-status-values', 'monitor:ref-decoded',
                                            'epath:extended-port', 'epath:address-link', 'epath:32bit-element', 'epath:odd-symbolic', 'string:odd-length',
-                                           'status:extended', 'forward_open:large', 'unconnected_send:odd-length']
+                                           'status:extended', 'forward_open:large', 'unconnected_send:odd-length', 'multiple_reply:embedded-error-with-extended-status']
 TIMEOUT = {'quick': 300, 'thorough': 1800}
 SOFT = {'quick': 30, 'thorough': 420}
 
@@ -377,8 +377,13 @@ def k_multiple_request(env, rng):
             k, m = gen_object_request(env, rng)
             members.append(m)
     f = {'multiple': {'request': members}}
-    if rng.random() < 0.6:
+    r = rng.random()
+    if r < 0.5:
         f['path'] = {'segment': [{'class': 2}, {'instance': 1}]}
+    elif r < 0.7:
+        # wider spellings of the router's path: the request data (count, offsets) starts after a longer path
+        f['path'] = {'segment': [{'class': rng.choice([2, 0x102])}, {'instance': rng.choice([1, 0x101])}]}
+        env.ctx.count('multiple_request:wide-router-path')
     M = env.logix.Logix
 
     def parse(b):
@@ -395,8 +400,15 @@ def k_multiple_reply(env, rng):
     members = []
     for _ in range(n):
         members.append(gen_logix_reply(env, rng)[1] if rng.random() < 0.8 else gen_object_reply(env, rng)[1])
-    st = rng.choice([0, 0, 0, 0x1E, 0x08, 0x16])
+    st = rng.choice([0, 0, 0, 0x1E, 0x1E, 0x08, 0x16])
     f = {'service': 0x8A, 'status': st}
+    if st and rng.random() < 0.5:
+        # the bundle's own reply may carry extended status words: the reply data (count, offsets) starts after them
+        ext = [rng.randrange(0x10000) for _ in range(rng.choice([1, 1, 2, 3]))]
+        f['status_ext'] = {'size': len(ext), 'data': ext}
+        env.ctx.count('multiple_reply:extended-status')
+        if st == 0x1E:
+            env.ctx.count('multiple_reply:embedded-error-with-extended-status')
     if st in (0, 0x1E):
         f['multiple'] = {'request': members}
     M = env.logix.Logix
